@@ -17,7 +17,7 @@ type c02Case struct {
 	Init    rig.Raw     `json:"init"`
 	MemSeed uint32      `json:"mem_seed"`
 	Patches []rig.Patch `json:"patches"`
-	Actions []string    `json:"actions"` // "step", "irq", "nmi", "reset"
+	Actions []string    `json:"actions"` // "step", "irq", "nmi", "reset", "fork"
 }
 
 type c02Stats struct {
@@ -33,7 +33,23 @@ const interruptNMI = 2 // value of the unexported interruptNMI constant in both 
 // c02Run executes the actions on both interpreters; with a synth the step actions place
 // instructions just in time.
 func c02Run(c *c02Case, synth *rig.Synth, nextAction func() string, stats *c02Stats) error {
-	pri, alt := cpus()
+	p0, a0 := cpus()
+	var pri, alt rig.CPU = p0, a0
+	// CPUs left behind by a fork action: they must keep the state they had
+	type left struct {
+		cpu rig.CPU
+		raw rig.Raw
+	}
+	var behind []left
+	checkBehind := func(k int) error {
+		for _, l := range behind {
+			if got := l.cpu.Raw(); got != l.raw {
+				return fmt.Errorf("action %d: running the %s created with InitFrom changed the CPU it was copied from: %+v -> %+v", k, l.cpu.Name(), l.raw, got)
+			}
+		}
+		behind = behind[:0]
+		return nil
+	}
 	m1, m2 := rig.NewMem(c.MemSeed), rig.NewMem(c.MemSeed)
 	for _, p := range c.Patches {
 		m1.Poke(p.Addr, p.Val)
@@ -77,6 +93,13 @@ func c02Run(c *c02Case, synth *rig.Synth, nextAction func() string, stats *c02St
 			act = c.Actions[k]
 		}
 		switch act {
+		case "fork":
+			// continue on CPUs created with InitFrom from the current ones
+			if err := checkBehind(k); err != nil {
+				return err
+			}
+			behind = append(behind, left{pri, pri.Raw()}, left{alt, alt.Raw()})
+			pri, alt = pri.Fork(), alt.Fork()
 		case "irq":
 			pri.TriggerIRQ()
 			alt.TriggerIRQ()
@@ -147,7 +170,7 @@ func c02Run(c *c02Case, synth *rig.Synth, nextAction func() string, stats *c02St
 			return err
 		}
 	}
-	return nil
+	return checkBehind(len(c.Actions))
 }
 
 func c02Check(c c02Case) error {
@@ -210,7 +233,7 @@ func c02GenRaw(d rig.Drawer, op0 byte) rig.Raw {
 
 func TestC02(t *testing.T) {
 	rig.Main(t, "C02", "rapid state machines over the pair (cpu65c816, cpualt) loaded from the same raw register file (E=0/1, any D/M/X, stale non-authoritative "+
-		"register copies 30% of the time) and the same sparse image; actions step (just-in-time edge-solving synthesis, all 256 opcodes), TriggerIRQ, NMI, Reset; after every action "+
+		"register copies 30% of the time) and the same sparse image; actions step (just-in-time edge-solving synthesis, all 256 opcodes), TriggerIRQ, NMI, Reset, fork (both continue on CPUs created with InitFrom; the CPUs left behind must keep their state); after every action "+
 		"Step() results, Cycles, AllCycles, architectural view, flags, E, Stopped, WDM, PPC/PRK, pending interrupt and memory must be equal.  Non-trivial = at least one step executed "+
 		"on both without panic; distinct = hash(raw state, memory seed, patches, actions).",
 		func(r *rig.Run) {
@@ -240,6 +263,10 @@ func TestC02(t *testing.T) {
 					case 2:
 						if d.Intn("reset", 3) == 0 {
 							return "reset"
+						}
+					case 3:
+						if d.Intn("fork", 48) == 0 {
+							return "fork"
 						}
 					}
 					return "step"
